@@ -215,15 +215,14 @@ pub enum FCase {
     Fifo { mode: ModeC, prefix_len: u16, pieces: Vec<u32>, content: Content, api: u8, pause_us: u16 },
 }
 
-fn check_fifo(mode: &ModeC, prefix_len: u16, pieces: &[u32], content: &Content, api: u8, pause_us: u16) -> Result<(), String> {
+/// Deliver `data` through a named pipe fed by a writer thread in `pieces` (the last piece takes whatever remains),
+/// and run `f` on the pipe's path. The writer is always drained and joined, whatever `f` does.
+pub fn through_fifo<R>(data: &[u8], pieces: &[u32], pause_us: u16, f: impl FnOnce(&std::path::Path) -> R) -> Result<R, String> {
     use std::io::Write;
     use std::os::unix::ffi::OsStrExt;
     use std::sync::atomic::{AtomicU64, Ordering};
     static N: AtomicU64 = AtomicU64::new(0);
-    let total: usize = pieces.iter().map(|p| *p as usize).sum();
-    let all = content.expand(prefix_len as usize + total);
-    let (prefix, data) = all.split_at(prefix_len as usize);
-    let path = crate::hist::scratch_dir().join(format!("c11-fifo-{}-{}", std::process::id(), N.fetch_add(1, Ordering::Relaxed)));
+    let path = crate::hist::scratch_dir().join(format!("fifo-{}-{}", std::process::id(), N.fetch_add(1, Ordering::Relaxed)));
     let cpath = std::ffi::CString::new(path.as_os_str().as_bytes()).map_err(|e| format!("ENGINE: {}", e))?;
     if unsafe { libc::mkfifo(cpath.as_ptr(), 0o600) } != 0 {
         return Err(format!("ENGINE: mkfifo: {}", std::io::Error::last_os_error()));
@@ -244,27 +243,19 @@ fn check_fifo(mode: &ModeC, prefix_len: u16, pieces: &[u32], content: &Content, 
         if let Ok(mut f) = std::fs::OpenOptions::new().write(true).open(&wpath) {
             let mut at = 0usize;
             for p in wpieces {
-                if f.write_all(&wdata[at..at + p as usize]).is_err() {
-                    break;
+                let end = core::cmp::min(wdata.len(), at + p as usize);
+                if f.write_all(&wdata[at..end]).is_err() {
+                    return;
                 }
-                at += p as usize;
+                at = end;
                 if pause_us > 0 {
                     std::thread::sleep(std::time::Duration::from_micros(pause_us as u64));
                 }
             }
+            let _ = f.write_all(&wdata[at..]);
         }
     });
-    let mut h = mode.hasher();
-    h.update(prefix);
-    let what = ["update_mmap", "update_mmap_rayon", "update_reader(File)"][api as usize % 3];
-    let r = match api % 3 {
-        0 => h.update_mmap(&path).map(|_| ()),
-        1 => h.update_mmap_rayon(&path).map(|_| ()),
-        _ => match std::fs::File::open(&path) {
-            Ok(f) => h.update_reader(f).map(|_| ()),
-            Err(e) => Err(e),
-        },
-    };
+    let r = f(&path);
     // make sure the writer can finish whatever happened: drain the pipe from a non-blocking reader until it is done
     if !writer.is_finished() {
         use std::io::Read;
@@ -279,6 +270,24 @@ fn check_fifo(mode: &ModeC, prefix_len: u16, pieces: &[u32], content: &Content, 
         }
     }
     let _ = writer.join();
+    Ok(r)
+}
+
+fn check_fifo(mode: &ModeC, prefix_len: u16, pieces: &[u32], content: &Content, api: u8, pause_us: u16) -> Result<(), String> {
+    let total: usize = pieces.iter().map(|p| *p as usize).sum();
+    let all = content.expand(prefix_len as usize + total);
+    let (prefix, data) = all.split_at(prefix_len as usize);
+    let mut h = mode.hasher();
+    h.update(prefix);
+    let what = ["update_mmap", "update_mmap_rayon", "update_reader(File)"][api as usize % 3];
+    let r = through_fifo(data, pieces, pause_us, |path| match api % 3 {
+        0 => h.update_mmap(path).map(|_| ()),
+        1 => h.update_mmap_rayon(path).map(|_| ()),
+        _ => match std::fs::File::open(path) {
+            Ok(f) => h.update_reader(f).map(|_| ()),
+            Err(e) => Err(e),
+        },
+    })?;
     r.map_err(|e| format!("{} on a named pipe failed: {}", what, e))?;
     let mut model = b3spec::Incr::new(mode.kf());
     model.push(prefix);
